@@ -685,7 +685,13 @@ impl PoolGen {
         };
         self.explicit_n += 1;
         let id = if self.rng.gen_bool(0.5) {
-            Some(format!("x{}", self.explicit_n))
+            // mostly fresh names; now and then a name that shadows how another pool is stored
+            // (an automatic identifier such as p.1, or the stored form of an explicit one)
+            match self.rng.gen_range(0..6) {
+                0 => Some(format!("p.{}", self.rng.gen_range(1..4))),
+                1 => obs.pools.keys().collect::<Vec<_>>().choose(&mut self.rng).map(|k| k.to_string()),
+                _ => Some(format!("x{}", self.explicit_n)),
+            }
         } else {
             None
         };
